@@ -535,6 +535,7 @@ class BaseParser:
         as_attname: bool = False,
         excluded_keys: List[str] = None,
     ):
+        case_conflicts = {}
         if self.case_insensitive_names:
             _data = {}
             for k, v in data.items():
@@ -544,7 +545,7 @@ class BaseParser:
                     if k in _data and not context.options.ignore_alias_conflicts:
                         # the same name given in two letter cases
                         if _data[k] != v:
-                            context.handle_error(exc.AliasConflictError(item=k, value=v))
+                            case_conflicts.setdefault(k, v)
                         continue
                 _data[k] = v
             data = _data
@@ -562,6 +563,7 @@ class BaseParser:
             if excluded_keys and name in excluded_keys:
                 continue
 
+            conflict = unprovided
             if options.ignore_alias_conflicts:
                 for alias in field.all_aliases:
                     if alias in data:
@@ -569,12 +571,14 @@ class BaseParser:
                         break
             else:
                 for alias in field.all_aliases:
+                    if alias in case_conflicts:
+                        conflict = case_conflicts[alias]
                     if alias in data:
                         if unprovided(value):
                             value = data[alias]
                         else:
                             if data[alias] != value:
-                                context.handle_error(exc.AliasConflictError(item=name, value=data[alias]))
+                                conflict = data[alias]
                                 break
 
             if unprovided(value):
@@ -599,6 +603,10 @@ class BaseParser:
                 if not unprovided(default):
                     result[name] = default
                 continue
+
+            if not unprovided(conflict):
+                # reported only for a field that takes input: what is given for a no-input field is ignored altogether
+                context.handle_error(exc.AliasConflictError(item=name, value=conflict))
 
             parsed = field.parse_value(value, context=context)
             if unprovided(parsed):
